@@ -15,10 +15,11 @@ CONSTANTS
   TreeStart = TRUE
   Ends = {0}
   Aheads = {0}
+  Lags = {0, 2, 3}
   MaxFaults = 3
   FaultBudgets = {0, 1, 2, 3}
   MaxRestarts = 1
 INIT SimInit
 NEXT SimNext
-INVARIANTS Export Mirror Bounded Gate NoConflict QuotaRetried Complete PosCovered VerbatimBad
+INVARIANTS Export Mirror Bounded Gate NoConflict QuotaRetried Complete PosCovered NoRepeat VerbatimBad
 CHECK_DEADLOCK FALSE
